@@ -149,6 +149,16 @@ type c09Scenario struct {
 type c09Result struct {
 	model, impl string
 	choices     [][]int // runnable sets at each step (for the DFS)
+	slow        bool    // the run took longer than c08SlowLimit: its dumped creation times are not reliable
+}
+
+// c09Case records a run as a correspondence case unless it was too slow for its dump to be exact.
+func c09Case(out *vlib.Out, res c09Result) {
+	if res.slow {
+		out.Count("discarded:slow-run")
+		return
+	}
+	out.Case(res.model, res.impl, true)
 }
 
 var c09Trs = []pb.TransportType{pb.TransportType_Min, pb.TransportType_Prefix}
@@ -169,6 +179,7 @@ func c09Reg(ph, sec, tr int, prescanned bool, covert string) *DecoyRegistration 
 
 // runC09 executes one schedule prefix (continuing with the lowest runnable thread) on the real code.
 func runC09(out *vlib.Out, sc *c09Scenario, prefixSched []int) c09Result {
+	t0 := time.Now()
 	lv := &c09Live{live: map[string]bool{}}
 	rm := c09Manager(lv)
 	rd := rm.registeredDecoys
@@ -178,8 +189,19 @@ func runC09(out *vlib.Out, sc *c09Scenario, prefixSched []int) c09Result {
 	keyOf := func(d *DecoyRegistration) string {
 		return d.PhantomIp.String() + "," + vlib.Hex([]byte(rd.transports[d.Transport].GetIdentifier(d)))
 	}
-	rd.registerForDetector = func(d *DecoyRegistration) { addEv("new " + keyOf(d)) }
-	rd.updateInDetector = func(d *DecoyRegistration) { addEv("upd " + keyOf(d)) }
+	// A detector announcement is decided inside a critical section of the registry mutex. If the mutex
+	// is NOT held while the announcement is made (under the controlled scheduler exactly one goroutine
+	// runs, so TryLock succeeds iff the announcing goroutine itself holds neither lock mode), the
+	// critical section has been left in between: that is a point at which the real scheduler can switch,
+	// so the controlled one gets a scheduling point there and explores what other threads do in the window.
+	outsideLock := func(point string) {
+		if rd.m.TryLock() {
+			rd.m.Unlock()
+			verifhook.Yield(point)
+		}
+	}
+	rd.registerForDetector = func(d *DecoyRegistration) { addEv("new " + keyOf(d)); outsideLock("announce:new") }
+	rd.updateInDetector = func(d *DecoyRegistration) { addEv("upd " + keyOf(d)); outsideLock("announce:upd") }
 
 	// ---- serial set-up through the same entry points; the virtual clock ages the records by relative
 	// shifts of their real timestamps, so whatever the code writes into them is preserved
@@ -376,7 +398,7 @@ func runC09(out *vlib.Out, sc *c09Scenario, prefixSched []int) c09Result {
 		}
 	}
 	for _, to := range rd.decoysTimeouts {
-		v := vnow - int64((time.Since(to.registrationTime)+500*time.Millisecond)/time.Second)
+		v := vnow - int64(time.Since(to.registrationTime)/time.Second) // exact while the run is faster than c08SlowLimit
 		t = append(t, fmt.Sprintf("%s,%s,%d,%s", to.decoy, vlib.Hex([]byte(to.identifier)), v, vlib.B(to.status == regStatusUsed)))
 	}
 	sort.Strings(d)
@@ -391,7 +413,7 @@ func runC09(out *vlib.Out, sc *c09Scenario, prefixSched []int) c09Result {
 	}
 	model := fmt.Sprintf("conc|600|21600|1,4|%s|%s|%s", strings.Join(mpre, ";"), strings.Join(mths, ";"), strings.Join(ss, ","))
 	impl := strings.Join(events, ";") + "|D:" + strings.Join(d, "/") + "|T:" + strings.Join(t, "/") + "|bad=0|done=" + vlib.B(allDone)
-	return c09Result{model: model, impl: impl, choices: choices}
+	return c09Result{model: model, impl: impl, choices: choices, slow: time.Since(t0) >= c08SlowLimit}
 }
 
 // c09Collected: which keys a sweeper starting right after the set-up would collect — at most one
@@ -478,7 +500,7 @@ func TestVerifC09(t *testing.T) {
 			for _, sc := range c09Scenarios() {
 				if sc.name == name {
 					res := runC09(out, sc, sched)
-					out.Case(res.model, res.impl, true)
+					c09Case(out, res)
 					fmt.Println("REPLAY", line)
 					fmt.Println("REPLAY model-line:", res.model)
 					fmt.Println("REPLAY impl      :", res.impl)
@@ -487,6 +509,7 @@ func TestVerifC09(t *testing.T) {
 		}
 		if strings.Contains(string(b), "pipeline case=") {
 			c09Pipeline(t, out)
+			c09WorkersSurviveBadInput(out)
 			c09StartupCancel(out)
 		}
 		return
@@ -498,7 +521,7 @@ func TestVerifC09(t *testing.T) {
 		var prefixSched []int
 		for {
 			res := runC09(out, sc, prefixSched)
-			out.Case(res.model, res.impl, true)
+			c09Case(out, res)
 			out.Count("scenario:" + sc.name)
 			count++
 			if count >= limit {
@@ -541,13 +564,14 @@ func TestVerifC09(t *testing.T) {
 					p[j] = -1
 				}
 				res := runC09Random(out, sc, r)
-				out.Case(res.model, res.impl, true)
+				c09Case(out, res)
 				out.Count("scenario-random:" + sc.name)
 			}
 		}
 		out.Note(fmt.Sprintf("scenario %s: %d schedules, exhaustive=%v", sc.name, count, exhaustive))
 	}
 	c09Pipeline(t, out)
+	c09WorkersSurviveBadInput(out)
 	c09StartupCancel(out)
 }
 
@@ -603,6 +627,14 @@ func c09Pipeline(t *testing.T, out *vlib.Out) {
 		garbage := []byte{0xff, 0xff, 0xff}
 		fail := func(sig, what string) { out.OracleFail(sig, what, "pipeline case="+c.name) }
 		sent := int64(0)
+		if c.block && !c09ValidNeedsProbe() {
+			// the conservation count below identifies "processed" with "went through the liveness probe"
+			out.Note("pipeline overload case skipped: the harness's valid message no longer reaches the liveness probe (test subnets changed?)")
+			out.Count("pipeline:overload:skipped")
+			cancel()
+			<-returned
+			continue
+		}
 		if c.block {
 			// N valid registrations with distinct secrets; every worker that takes one blocks inside the
 			// liveness probe (gate), so at most workers + buffer messages can be accepted and the rest
@@ -685,6 +717,94 @@ func c09Pipeline(t *testing.T, out *vlib.Out) {
 				sig = "C09:shutdown-hangs-busy-input"
 			}
 			fail(sig, "HandleRegUpdates had not returned 5 s after cancellation ("+c.name+")")
+		}
+	}
+}
+
+// c09ValidNeedsProbe: does one c09ValidMsg, ingested on its own, go through the liveness probe? The
+// pipeline cases that count probes rest on it (it depends on test/phantom_subnets.toml of the tree).
+func c09ValidNeedsProbe() bool {
+	lv := &c09Live{live: map[string]bool{}}
+	rm := c09Manager(lv)
+	regs, err := rm.parseRegMessage(c09ValidMsg(7))
+	if err != nil {
+		return false
+	}
+	for _, reg := range regs {
+		if reg != nil {
+			rm.ingestRegistration(reg)
+		}
+	}
+	return atomic.LoadInt64(&lv.probes) == 1
+}
+
+// c09WorkersSurviveBadInput: malformed registration messages (anything may arrive on the ZMQ socket)
+// are dropped by the worker that parses them, and the worker goes on to its next message. After three
+// bad messages per worker have been handed to the pool, valid registrations must still be ingested —
+// a pool whose workers die on bad input drops and counts everything from then on.
+func c09WorkersSurviveBadInput(out *vlib.Out) {
+	if !c09ValidNeedsProbe() {
+		out.Note("pipeline bad-input case skipped: the harness's valid message no longer reaches the liveness probe")
+		out.Count("pipeline:bad-input:skipped")
+		return
+	}
+	v := uint32(3)
+	noPayload, _ := proto.Marshal(&pb.C2SWrapper{SharedSecret: []byte{1, 2, 3}})
+	badGen := func() []byte { // parses, but names a decoy-list generation the station does not know
+		gen, tr, covert, t := uint32(99999), pb.TransportType_Min, "1.2.3.4:443", true
+		src := pb.RegistrationSource_API
+		w := &pb.C2SWrapper{SharedSecret: make([]byte, 32), RegistrationSource: &src, RegistrationAddress: []byte{192, 0, 2, 7},
+			RegistrationPayload: &pb.ClientToStation{ClientLibVersion: &v, Transport: &tr, CovertAddress: &covert, DecoyListGeneration: &gen, V4Support: &t}}
+		b, _ := proto.Marshal(w)
+		return b
+	}()
+	bad := [][]byte{{0xff, 0xff, 0xff}, {}, noPayload, badGen, {0x0a}}
+	for _, workers := range []int{3, 20} {
+		lv := &c09Live{live: map[string]bool{}}
+		rm := c09Manager(lv)
+		rm.IngestWorkerCount = workers
+		ctx, cancel := context.WithCancel(context.Background())
+		in := make(chan interface{})
+		var wg sync.WaitGroup
+		wg.Add(1)
+		returned := make(chan struct{})
+		go func() { rm.HandleRegUpdates(ctx, in, &wg); close(returned) }()
+		name := fmt.Sprintf("bad-input-%d", workers)
+		forwarded := func() int64 {
+			return atomic.LoadInt64(&rm.totalIngestMessages) - atomic.LoadInt64(&rm.totalDroppedMessages)
+		}
+		// hand 3 x workers bad messages to the pool (a message that is dropped because the buffer is
+		// momentarily full does not count); give up after 3 s
+		deadline := time.Now().Add(3 * time.Second)
+		for i := 0; forwarded() < int64(3*workers) && time.Now().Before(deadline); i++ {
+			in <- bad[i%len(bad)]
+			time.Sleep(500 * time.Microsecond)
+		}
+		// now valid registrations: at least one must reach the liveness probe
+		out.Checked()
+		ok := false
+		deadline = time.Now().Add(5 * time.Second)
+		for i := 0; time.Now().Before(deadline); i++ {
+			if i < 50 {
+				in <- c09ValidMsg(5000 + workers*100 + i)
+			}
+			if atomic.LoadInt64(&lv.probes) >= 1 {
+				ok = true
+				break
+			}
+			time.Sleep(2 * time.Millisecond)
+		}
+		if !ok {
+			out.OracleFail("C09:workers-die-on-bad-input", fmt.Sprintf("after %d malformed messages were handed to %d workers, none of 50 valid registrations was ingested in 5 s (received %d, dropped %d)",
+				forwarded(), workers, atomic.LoadInt64(&rm.totalIngestMessages), atomic.LoadInt64(&rm.totalDroppedMessages)), "pipeline case="+name)
+		} else {
+			out.Count("pipeline:" + name + ":ok")
+		}
+		cancel()
+		select {
+		case <-returned:
+		case <-time.After(5 * time.Second):
+			out.OracleFail("C09:shutdown-hangs-idle-input", "HandleRegUpdates had not returned 5 s after cancellation ("+name+")", "pipeline case="+name)
 		}
 	}
 }
